@@ -73,6 +73,33 @@ def oracle(ck):
         refs = np.sqrt(SpectrumAnalyzer(ys, fs, **kw).compute().Gxx)
         if np.any(rz[ok] > 1e-5 * refs[ok]):
             ck.violation("q=%d: residual of an exact static combination is %g of the output spectrum" % (q, float(np.max(rz[ok] / refs[ok]))), inp, tag="static")
+        # inputs correlated with each other through a delay, couplings with different phases: compare with the direct
+        # least-squares residual  Gyy - S^H T^-1 S  built from the same spectra
+        xa = g.standard_normal(N); xb = np.roll(xa, 3) + 0.3 * g.standard_normal(N)
+        yc = np.roll(xa, 1) - xb + 0.2 * g.standard_normal(N)
+        for solver in (SY.MISO_numeric_optimal_spectral_analysis, SY.MISO_analytic_optimal_spectral_analysis):
+            _, rc = solver([xa, xb], yc, fs, **kw); runs += 1
+            A11 = SpectrumAnalyzer(xa, fs, **kw).compute().Gxx; A22 = SpectrumAnalyzer(xb, fs, **kw).compute().Gxx
+            c12 = SpectrumAnalyzer(np.vstack([xa, xb]), fs, **kw).compute().Gxy
+            s1 = SpectrumAnalyzer(np.vstack([xa, yc]), fs, **kw).compute().Gxy; s2 = SpectrumAnalyzer(np.vstack([xb, yc]), fs, **kw).compute().Gxy
+            yy = SpectrumAnalyzer(yc, fs, **kw).compute()
+            okc = np.asarray(yy.navg) > 2
+            direct = np.empty(len(A11))
+            for k in range(len(A11)):
+                if not okc[k]:
+                    direct[k] = np.nan; continue
+                T = np.array([[A11[k], c12[k]], [np.conj(c12[k]), A22[k]]]); S = np.array([s1[k], s2[k]])
+                direct[k] = float(np.real(yy.Gxx[k] - np.conj(S) @ np.linalg.solve(T, S)))
+            if np.any(rc[okc] ** 2 > yy.Gxx[okc] * (1 + 1e-6)) or np.any(np.abs(rc[okc] ** 2 - direct[okc]) > 1e-6 * yy.Gxx[okc]):
+                ck.violation("two inputs correlated through a 3-sample delay: %s residual^2 differs from Gyy - S^H T^-1 S (max rel %g) or exceeds Gyy" % (solver.__name__, float(np.max(np.abs(rc[okc] ** 2 - direct[okc]) / yy.Gxx[okc]))), dict(case="correlated-delayed", kw=kw), tag="correlated")
+        # inputs in very different units (amplitude ratio 5e6): exact combination, rescaling invariance, analytic = numeric
+        xs1 = g.standard_normal(N); xs2 = 2e-7 * g.standard_normal(N); yu = 0.5 * xs1 + 4e6 * xs2
+        _, ru = SY.MISO_numeric_optimal_spectral_analysis([xs1, xs2], yu, fs, **kw); _, ru2 = SY.MISO_numeric_optimal_spectral_analysis([xs1, xs2 * 5e6], yu, fs, **kw)
+        _, rua = SY.MISO_analytic_optimal_spectral_analysis([xs1, xs2], yu, fs, **kw); runs += 3
+        refu = np.sqrt(SpectrumAnalyzer(yu, fs, **kw).compute().Gxx)
+        if np.any(ru[ok] > 1e-4 * refu[ok]) or np.any(np.abs(ru[ok] - ru2[ok]) > 1e-4 * refu[ok]) or np.any(np.abs(ru[ok] - rua[ok]) > 1e-4 * refu[ok]):
+            ck.violation("inputs in very different units (1 vs 2e-7): exact-combination residual %g of the output, rescaling changes it by %g, analytic vs numeric %g" %
+                         (float(np.max(ru[ok] / refu[ok])), float(np.max(np.abs(ru[ok] - ru2[ok]) / refu[ok])), float(np.max(np.abs(ru[ok] - rua[ok]) / refu[ok]))), dict(case="units", kw=kw), tag="units")
         # one input, coupling with delay/phase: sqrt(Gyy (1 - coh))
         d = ck.rng.choice([1, 2, 5])
         y1 = 0.7 * np.roll(X[0], d) + 0.3 * g.standard_normal(N)
